@@ -11,6 +11,8 @@ from tiv.mutate import M
 from tiv.sem import econds, trace, expand
 
 RULES = {
+    "MEMO": "memo safety (shared, rules/common.py): a memoised function in this property's files (or called from them) is a function of its "
+            "arguments only (no terminal/ambient/receiver state outside the key) and no caller mutates its result in place",
     "R1": "unset removes, never writes: the falsy branch of both forms of set_render_method and the deleters of jpeg_quality / "
           "read_from_file delete the receiver's own override cell (AttributeError tolerated) and do not store to it; only the "
           "class that defines _default_render_method in its own body may store that default (guard: '_default_render_method' in vars(cls))",
@@ -227,6 +229,9 @@ def run(ck, m):
     a, b = checks(cls_form, "cls"), checks(inst_form, "type(self)")
     ck.ob("R6", inst_form, a == b and len(a) >= 2, f"the two forms validate differently: class form {a} vs instance form {b}", stmt="set_render_method: sibling validation")
     ck.ob("R6", cls_form, any("<C>._render_methods" in y for x in a for y in x), "validation must be against the receiver class's _render_methods", stmt="set_render_method: validates against _render_methods")
+
+    from rules.common import rule_memo_safety
+    rule_memo_safety(ck, m, "MEMO", "C20")
 
 
 MUTANTS = [
